@@ -23,6 +23,8 @@ pub enum Sec {
     Malformed,
     /// answers the first request with a challenge, then stays silent
     ChallengeThenSilent,
+    /// a reply of several datagrams whose last datagram is malformed (Unreal 2 lists); replies of one datagram: as Malformed
+    MalformedLater,
 }
 
 const SECS: [Sec; 4] = [Sec::Valid, Sec::Silent, Sec::Malformed, Sec::ChallengeThenSilent];
@@ -67,8 +69,12 @@ fn wrap(inner: Box<dyn crate::wire::Responder>, fam: Family, unit: u8, sec: Sec)
         Sec::Silent => (Fault::Silent, 0),
         Sec::Malformed => (Fault::Malformed, 0),
         Sec::ChallengeThenSilent => (Fault::Silent, 1),
+        Sec::MalformedLater => (Fault::Malformed, 0),
     };
-    let (f, _log) = Faulty::new(inner, fam, unit, step, vec![fault; 8]);
+    let (mut f, _log) = Faulty::new(inner, fam, unit, step, vec![fault; 8]);
+    if sec == Sec::MalformedLater {
+        f.mangle = 10;
+    }
     Box::new(f)
 }
 
@@ -142,8 +148,8 @@ impl Prop for C11 {
                         }
                     }
                 }
-                for sp in [Sec::Valid, Sec::Silent, Sec::Malformed] {
-                    for sr in [Sec::Valid, Sec::Silent, Sec::Malformed] {
+                for sp in [Sec::Valid, Sec::Silent, Sec::Malformed, Sec::MalformedLater] {
+                    for sr in [Sec::Valid, Sec::Silent, Sec::Malformed, Sec::MalformedLater] {
                         for via_generic in [false, true] {
                             for idx in 0 .. nstates * 4 {
                                 v.push(Case::Unreal2 { players, rules, sec_players: sp, sec_rules: sr, via_generic, idx });
@@ -248,7 +254,7 @@ impl Prop for C11 {
                             }
                             failing => {
                                 if tog == 2 {
-                                    want_err = Some(if failing == Sec::Malformed { "parse" } else { "timeout" });
+                                    want_err = Some(if failing == Sec::Malformed || failing == Sec::MalformedLater { "parse" } else { "timeout" });
                                 }
                             }
                         }
@@ -367,7 +373,7 @@ impl Prop for C11 {
                         }
                         failing => {
                             if tog == 2 {
-                                want_err = Some(if failing == Sec::Malformed { "parse" } else { "timeout" });
+                                want_err = Some(if failing == Sec::Malformed || failing == Sec::MalformedLater { "parse" } else { "timeout" });
                             }
                         }
                     }
